@@ -35,6 +35,12 @@
 #include <libkdumpfile/addrxlat.h>
 
 int ax_lent(addrxlat_ctx_t *ctx);
+int ax_read64(addrxlat_ctx_t *ctx, int as, unsigned long long addr, unsigned long long *val);
+void ax_state(addrxlat_ctx_t *ctx, char *out, unsigned long sz);
+int ax_nslots(void);
+/* the library's fcache_get_fb (this TU is compiled with ENABLE_DEBUG, where INTERNAL_DECL gives plain names) */
+kdump_status lib_fcache_get_fb(struct fcache *fc, struct fcache_entry *fce, unsigned fidx, off_t pos, void *fb, size_t sz)
+	__asm__("_kdumpfile_priv_fcache_get_fb");
 
 /* ------------------------------------------------------------------ names */
 static const char *kst(kdump_status st)
@@ -261,13 +267,14 @@ static const char *fd_state(void)
 #define NSET 8
 #define NOBJ 16
 static struct { int fd[16]; int n; } SET[NSET];
-enum otype { O_NONE, O_BMP, O_BLOB, O_AXCTX, O_AXSYS, O_REF, O_PAGE };
+enum otype { O_NONE, O_BMP, O_BLOB, O_AXCTX, O_AXSYS, O_REF, O_PAGE, O_CB };
 static struct obj {
 	enum otype t;
 	void *p;
 	long mypins;               /* pins taken by the harness itself */
 	kdump_attr_ref_t ref;
 	addrxlat_buffer_t buf;
+	addrxlat_ctx_t *owner;     /* O_CB: the context the record was added to (the slot holds a reference to it) */
 } O[NOBJ];
 
 static unsigned refsum(struct cache *c)
@@ -297,6 +304,9 @@ static void summary(const char *res)
 		if (O[i].t == O_AXCTX) {
 			for (j = 0; j < na; ++j) if (ax[j] == O[i].p) break;
 			if (j == na) { ax[na++] = O[i].p; lent += ax_lent(O[i].p); }
+		} else if (O[i].t == O_CB) {
+			for (j = 0; j < na; ++j) if (ax[j] == O[i].owner) break;
+			if (j == na) { ax[na++] = O[i].owner; lent += ax_lent(O[i].owner); }
 		} else if (O[i].t == O_BLOB) {
 			/* pins the library holds = pin count - pins taken through any slot holding this blob */
 			long mine = 0; int first = 1;
@@ -337,6 +347,7 @@ static void drop_obj(struct obj *o)
 	case O_AXCTX: addrxlat_ctx_decref(o->p); break;
 	case O_AXSYS: addrxlat_sys_decref(o->p); break;
 	case O_PAGE: o->buf.put_page(&o->buf); break;
+	case O_CB: addrxlat_ctx_del_cb(o->owner, o->p); addrxlat_ctx_decref(o->owner); o->owner = NULL; break;
 	default: break;
 	}
 	o->t = O_NONE; o->p = NULL; o->mypins = 0;
@@ -505,6 +516,39 @@ static void run_op(char *line, char *res, size_t rsz)
 		st = cb->get_page(cb, &O[o2].buf);
 		if (st == ADDRXLAT_OK) { O[o2].t = O_PAGE; O[o2].p = (void *)O[o2].buf.ptr; }
 		snprintf(res, rsz, "getpage %s", xst(st));
+	} else if (sscanf(line, "addcb %u %u", &o, &o2) == 2 && o < NOBJ && O[o].t == O_AXCTX && o2 < NOBJ && O[o2].t == O_NONE) {
+		/* an application callback record that overrides nothing, on top of what is installed; the slot keeps
+		 * its own reference to the context, so that the record can be removed whenever the application likes */
+		addrxlat_cb_t *cb = addrxlat_ctx_add_cb(O[o].p);
+		if (cb) { O[o2].t = O_CB; O[o2].p = cb; O[o2].owner = O[o].p; addrxlat_ctx_incref(O[o].p); }
+		ax_state(O[o].p, arg, 400);
+		snprintf(res, rsz, "addcb %s %s", cb ? "ok" : "nomem", arg);
+	} else if (sscanf(line, "delcb %u", &o) == 1 && o < NOBJ && O[o].t == O_CB) {
+		addrxlat_ctx_t *ax = O[o].owner;
+		addrxlat_ctx_del_cb(ax, O[o].p);
+		ax_state(ax, arg, 400);
+		O[o].t = O_NONE; O[o].p = NULL; O[o].owner = NULL;
+		addrxlat_ctx_decref(ax);
+		snprintf(res, rsz, "delcb %s", arg);
+	} else if (sscanf(line, "axread %u %u %" SCNu64, &o, &as, &a) == 3 && o < NOBJ && O[o].t == O_AXCTX) {
+		unsigned long long v; int st = ax_read64(O[o].p, as, a, &v);
+		ax_state(O[o].p, arg, 400);
+		snprintf(res, rsz, "axread %s %s", xst(st), arg);
+	} else if (sscanf(line, "axstate %u", &o) == 1 && o < NOBJ && O[o].t == O_AXCTX) {
+		ax_state(O[o].p, arg, 400);
+		snprintf(res, rsz, "axstate %s", arg);
+	} else if (sscanf(line, "fb %u %" SCNu64 " %" SCNu64, &c, &a, &b) == 3 && c < NCTX && C[c] && C[c]->shared->fcache && b <= 4096) {
+		/* fcache_get_fb() the way make_xen_pfn_map_*() use it: an object of b bytes at file position a, bounce buffer at hand;
+		 * then fcache_put() */
+		static unsigned char bounce[4096];
+		struct fcache_entry fce; kdump_status st;
+		memset(&fce, 0, sizeof fce);
+		st = lib_fcache_get_fb(C[c]->shared->fcache, &fce, 0, (off_t)a, bounce, b);
+		if (st == KDUMP_OK) {
+			snprintf(res, rsz, "fb ok %s %" PRIu64, fce.cache ? "entry" : "bounce", fnv(fce.data, b));
+			if (fce.cache) __wrap__kdumpfile_priv_cache_put_entry(fce.cache, fce.ce);      /* fcache_put() */
+		} else
+			snprintf(res, rsz, "fb %s", kst(st));
 	} else if (sscanf(line, "bits %u %" SCNu64 " %" SCNu64, &o, &a, &b) == 3 && o < NOBJ && O[o].t == O_BMP && b >= a && b - a < (1 << 16)) {
 		size_t sz = ((b - a) >> 3) + 1; unsigned char *raw = __real_malloc(sz);
 		kdump_status st = kdump_bmp_get_bits(O[o].p, a, b, raw);
@@ -542,7 +586,7 @@ static void run_op(char *line, char *res, size_t rsz)
 	} else {
 		/* operation on an object slot that holds no (or another kind of) object, e.g. because
 		 * the call that should have produced it failed: no effect */
-		static const char *objops[] = { "memarr", "samemap", "samemeth", "xop", "getpage", "bits", "fset", "fclr", "pin",
+		static const char *objops[] = { "addcb", "delcb", "axread", "axstate", "memarr", "samemap", "samemeth", "xop", "getpage", "bits", "fset", "fclr", "pin",
 						"unpin", "bset", "drop", "unref", "refget", NULL };
 		int i;
 		for (i = 0; objops[i]; ++i)
@@ -569,8 +613,8 @@ int main(void)
 #if USE_ZSTD
 		zstd = 1;
 #endif
-		printf("> sizes pio=%zu fce=%zu embed=%d pgsz=%ld lzo=%d snappy=%d zstd=%d\n", sizeof(struct page_io), sizeof(struct fcache_entry),
-		       MAX_EMBED_FCES, sysconf(_SC_PAGESIZE), lzo, snappy, zstd);
+		printf("> sizes pio=%zu fce=%zu embed=%d pgsz=%ld lzo=%d snappy=%d zstd=%d cb=%zu rcslots=%d\n", sizeof(struct page_io), sizeof(struct fcache_entry),
+		       MAX_EMBED_FCES, sysconf(_SC_PAGESIZE), lzo, snappy, zstd, sizeof(addrxlat_cb_t), ax_nslots());
 	}
 	while (fgets(line, sizeof line, stdin)) {
 		char *op = line;
@@ -582,7 +626,8 @@ int main(void)
 			tr_shared = NULL;
 			/* the shared state whose caches name the events: context or addrxlat object of the op */
 			if (sscanf(op, "%*s %u", &c) == 1) {
-				if (!strncmp(op, "getpage", 7) || !strncmp(op, "drop", 4) || !strncmp(op, "xop", 3)) {
+				if (!strncmp(op, "getpage", 7) || !strncmp(op, "drop", 4) || !strncmp(op, "xop", 3) ||
+				    !strncmp(op, "axread", 6) || !strncmp(op, "addcb", 5) || !strncmp(op, "delcb", 5)) {
 					unsigned i;
 					for (i = 0; i < NCTX; ++i) if (C[i]) { tr_shared = C[i]->shared; break; }
 				} else if (c < NCTX && C[c]) tr_shared = C[c]->shared;
